@@ -313,9 +313,14 @@ func (p *Payload) extractCriticalFieldsFromBytes(data []byte, traceIdFieldNames,
 					typeIsCorrect = valueType == msgp.IntType || valueType == msgp.UintType
 				}
 				if typeIsCorrect {
+					traceIDSoFar := p.MetaTraceID
 					remaining, err = field.unmarshalMsgp(p, remaining)
 					if err != nil {
 						return len(data) - len(remaining), fmt.Errorf("failed to read value for key %s: %w", string(keyBytes), err)
+					}
+					if p.MetaTraceID == "" {
+						// an empty meta.trace_id is no trace ID: it must not erase the one already found
+						p.MetaTraceID = traceIDSoFar
 					}
 					handled = true
 				}
@@ -416,6 +421,7 @@ func (p *Payload) ExtractMetadata() error {
 			// Try metadata fields first
 			handled := false
 			if field, ok := metadataFields[key]; ok {
+				traceIDSoFar := p.MetaTraceID
 				if field.expectedType == FieldTypeInt64 {
 					switch t := value.(type) {
 					case float64:
@@ -428,6 +434,10 @@ func (p *Payload) ExtractMetadata() error {
 					}
 				} else {
 					field.set(p, value)
+				}
+				if p.MetaTraceID == "" {
+					// an empty meta.trace_id is no trace ID: it must not erase the one already found
+					p.MetaTraceID = traceIDSoFar
 				}
 				handled = true
 			}
